@@ -156,6 +156,8 @@ def build(s):
     if t == "fn":
         return FUNCS[s["name"]]
     if t == "tensor":
+        if not s["shape"]:
+            return ttb.tensor()  # the tensor without modes and without entries
         return gen.mk_tensor(ttb, s["shape"], s["data"])
     if t == "sptensor":
         return gen.mk_sptensor(ttb, s["shape"], s["subs"], s["vals"])
@@ -245,6 +247,56 @@ def TTspec(rng, shape, cshape=None):
             "factors": [[[rng.choice([-2, -1, 1, 2, 3]) for _ in range(c)] for _ in range(m)] for m, c in zip(shape, cshape)]}
 
 
+def Tzero(shape):
+    """A dense tensor without nonzeros."""
+    return {"t": "tensor", "shape": list(shape), "data": [0] * gen.numel(shape)}
+
+
+def Tones(shape):
+    return {"t": "tensor", "shape": list(shape), "data": [1] * gen.numel(shape)}
+
+
+def sym_data(rng, shape, grps):
+    """F-ordered data of a tensor that is symmetric in every listed group of modes (the value of an
+    entry depends on its subscript only through the sorted subscripts of each group)."""
+    vals = {}
+    out = []
+    for sub in gen.all_subs(shape):
+        key = list(sub)
+        for g in grps:
+            srt = sorted(sub[k] for k in g)
+            for k, v in zip(sorted(g), srt):
+                key[k] = v
+        out.append(vals.setdefault(tuple(key), rng.choice([-4, -3, -2, -1, 1, 2, 3, 4, 5])))
+    return out
+
+
+def is_sym(shape, data, grps):
+    """Reference (plain NumPy): the tensor equals every transposition of itself that permutes the
+    modes within the groups.  Decides which branch of `symmetrize` runs."""
+    import itertools
+    A = np.array(data, dtype=float).reshape(tuple(shape), order="F")
+    for g in grps:
+        for q in itertools.permutations(g):
+            order = list(range(len(shape)))
+            for a, b in zip(g, q):
+                order[a] = b
+            if tuple(shape[k] for k in order) != tuple(shape) or not np.array_equal(A, np.transpose(A, order)):
+                return False
+    return True
+
+
+def empty_selections(N, items):
+    """Argument conventions that select NO mode of an order-N object for ttv / ttm: `dims=[]` or
+    `exclude_dims` = every mode, with N multiplicands (`items`) or with none, as array and list."""
+    allm = list(range(N))
+    return [("none/dims-empty/N", [lst(items)], {"dims": iarr([])}),
+            ("none/dims-empty/0", [lst([])], {"dims": iarr([])}),
+            ("none/exclude-all/N", [lst(items)], {"exclude_dims": iarr(allm)}),
+            ("none/exclude-all/0", [lst([])], {"exclude_dims": iarr(allm)}),
+            ("none/exclude-all-list/N", [lst(items)], {"exclude_dims": py(allm)})]
+
+
 def mat(rng, r, c, layout="F"):
     return arr([r, c], [rng.choice([-3, -2, -1, 1, 2, 3]) for _ in range(r * c)], "f", layout)
 
@@ -302,6 +354,62 @@ def walk(obj, path, out, depth=0):
         for k in sorted(vars(obj)):
             walk(vars(obj)[k], _j(path, k), out, depth + 1)
     return out
+
+
+PYTTB_TYPES = (ttb.tensor, ttb.sptensor, ttb.ktensor, ttb.ttensor, ttb.sumtensor, ttb.tenmat, ttb.sptenmat)
+
+
+def walk_objs(obj, path, out, depth=0):
+    """The pyttb objects reachable from obj (the object itself, parts of a sum tensor, the core of
+    a Tucker tensor, entries of lists / tuples / dicts), with their paths."""
+    if depth > 6 or obj is None:
+        return out
+    if isinstance(obj, PYTTB_TYPES):
+        out.append((path, obj))
+        if isinstance(obj, ttb.ttensor):
+            walk_objs(obj.core, _j(path, "core"), out, depth + 1)
+        elif isinstance(obj, ttb.sumtensor):
+            for i, q in enumerate(obj.parts):
+                walk_objs(q, _j(path, f"p{i}"), out, depth + 1)
+    elif isinstance(obj, (list, tuple)):
+        for i, x in enumerate(obj):
+            walk_objs(x, _j(path, str(i)), out, depth + 1)
+    elif isinstance(obj, dict):
+        for k in sorted(obj, key=str):
+            walk_objs(obj[k], _j(path, str(k)), out, depth + 1)
+    return out
+
+
+def under(name, path):
+    """Is the array / object called `name` the object at `path` or inside it?"""
+    return path == "" or name == path or name.startswith(path + ".")
+
+
+def poke(obj):
+    """Change one entry of a pyttb object through its OWN public `__setitem__` (for a sparse object
+    this rebinds its arrays, so it is visible through another name of the same object even when no
+    array has a cell to share – the tensor without nonzeros).  False when there is nothing to write."""
+    try:
+        if isinstance(obj, (ttb.tensor, ttb.sptensor)):
+            shape = tuple(int(d) for d in obj.shape)
+            if len(shape) == 0 or 0 in shape:
+                return False
+            key = tuple([0] * len(shape)) if len(shape) > 1 else 0
+            with warnings.catch_warnings():
+                warnings.simplefilter("ignore")
+                obj[key] = 7.5  # never a value of the generated data (small integers)
+            return True
+        if isinstance(obj, (ttb.tenmat, ttb.sptenmat)):
+            shape = tuple(int(d) for d in obj.shape)
+            if len(shape) != 2 or 0 in shape:
+                return False
+            if isinstance(obj, ttb.tenmat) and not np.issubdtype(obj.data.dtype, np.floating):
+                return False
+            obj[0, 0] = 7.5
+            return True
+    except Exception:  # noqa: BLE001
+        return False
+    return False
 
 
 def snap(a):
@@ -431,6 +539,47 @@ def observe(c):
                     vis.add((rn, i))
     obs["share"] = sorted(share)
     obs["visible"] = sorted(vis)
+    obs["rsize"] = [int(r.size) for _, r in results]
+    # (d) object level.  Identity: a pyttb object reachable from the result IS an object reachable
+    # from an operand.  Write-through with the objects' own `__setitem__` in both directions: the
+    # arrays reachable from the other side are re-walked from their holders, so a rebound attribute
+    # counts (what makes an aliased tensor WITHOUT nonzeros observable: no array has a cell to share).
+    obs["same"], obs["visible_obj"] = [], []
+    if c["kind"] != "inplace":
+        robjs = walk_objs(result, "", [])
+        oobjs = walk_objs(recv, "self", [])
+        for i, a in enumerate(args):
+            walk_objs(a, f"a{i}", oobjs)
+        for k in kwargs:
+            walk_objs(kwargs[k], f"k.{k}", oobjs)
+        obs["same"] = sorted((rp, op) for rp, ro in robjs for op, oo in oobjs if ro is oo)
+
+        def operand_snaps():
+            now = walk(recv, "self", [])
+            for i, a in enumerate(args):
+                walk(a, f"a{i}", now)
+            for k in kwargs:
+                walk(kwargs[k], f"k.{k}", now)
+            return {n: snap(a) for n, a in now}
+
+        def result_snaps():
+            return {n: snap(a) for n, a in walk(result, "", [])}
+
+        def changed(before_, after_):
+            return sorted(n for n in set(before_) | set(after_) if before_.get(n) != after_.get(n))
+
+        vo = set()
+        for rp, ro in robjs:
+            cur = operand_snaps()
+            if poke(ro):
+                for n in changed(cur, operand_snaps()):
+                    vo.add(("r", rp, n))
+        for op, oo in oobjs:
+            cur = result_snaps()
+            if poke(oo):
+                for n in changed(cur, result_snaps()):
+                    vo.add(("o", n, op))
+        obs["visible_obj"] = sorted(vo)
     return obs
 
 
@@ -573,9 +722,13 @@ def tensor_cases(rng, tier):
     out.append(case(C, "from_function", "ones_f", None, [fn("ones_f"), py([2, 3])], {}, COMP, "static"))
     # receivers ----------------------------------------------------------------------------
     shapes = DENSE_SHAPES if tier == "quick" else DENSE_SHAPES + [gen.shape(rng, 1, 4, 3) for _ in range(16)]
-    for shape in shapes:
+    # every receiver shape with generic data; two of them also WITHOUT nonzeros and with all entries one
+    recvs = [(shape, Tspec(rng, shape), "") for shape in shapes]
+    recvs += [(shape, Tzero(shape), "zero/") for shape in ([2, 3, 4], [3, 1, 2], [4])]
+    recvs += [([2, 3, 2], Tones([2, 3, 2]), "ones/")]
+    for shape, X, variant in recvs:
+        first = len(out)
         N = len(shape)
-        X = Tspec(rng, shape)
         EW = M(C, "elementwise", shape=shape)
         for m in ("copy", "__pos__", "full"):
             out.append(case(C, m, "", X, [], {}, M(C, "copy", shape=shape)))
@@ -676,6 +829,25 @@ def tensor_cases(rng, tier):
 
         out.append(case(C, "ttv", "one", X, [vec(rng, shape[0]), py(0)], {}, ttv_model([0])))
         out.append(case(C, "ttv", "all", X, [lst([vec(rng, d) for d in shape])], {}, ttv_model(list(range(N)))))
+        # NO mode selected: nothing is multiplied, the result carries the receiver's entries
+        for lab, a, kw in empty_selections(N, [vec(rng, d) for d in shape]):
+            out.append(case(C, "ttv", lab, X, a, kw, M(C, "ttv", perm=list(range(N)), shape=shape, flag="none")))
+            if lab in ("none/dims-empty/0", "none/exclude-all/N"):  # (rejected by tensor.ttm at the time of writing)
+                out.append(case(C, "ttm", lab, X, [lst([mat(rng, 2, d) for d in shape]) if lab.endswith("N") else lst([])], kw))
+        out.append(case(C, "ttm", "list-one", X, [lst([mat(rng, 2, shape[N - 1])]), iarr([N - 1])], {}))
+        out.append(case(C, "ttm", "identity-matrix", X,
+                        [arr([shape[0], shape[0]], [1 if i == j else 0 for j in range(shape[0]) for i in range(shape[0])]), py(0)],
+                        {}, ttm_model(0, shape[0]) if N >= 2 else COMP))
+        out.append(case(C, "collapse", "none-list", X, [py([])]))
+        out.append(case(C, "collapse", "none-arr", X, [iarr([])]))
+        out.append(case(C, "mask", "all-ones", X, [Tones(shape)]))
+        for m, e in (("__add__", 0.0), ("__sub__", 0.0), ("__mul__", 1.0), ("__truediv__", 1.0), ("__pow__", 1.0),
+                     ("__radd__", 0.0), ("__rmul__", 1.0)):
+            out.append(case(C, m, "scalar-identity", X, [py(e)], {}, EW))
+        out.append(case(C, "__add__", "zero-tensor", X, [Tzero(shape)], {}, EW))
+        out.append(case(C, "__mul__", "ones-tensor", X, [Tones(shape)], {}, EW))
+        out.append(case(C, "__mul__", "empty-sptensor", X, [Sspec(rng, shape, "empty")], {}, EW))
+        out.append(case(C, "innerprod", "empty-sptensor", X, [Sspec(rng, shape, "empty")]))
         if N >= 2:
             for ds in mode_subsets(rng, N, tier):
                 out.append(case(C, "ttv", f"dims{len(ds)}", X, [lst([vec(rng, shape[k]) for k in ds]), iarr(ds)], {},
@@ -727,22 +899,66 @@ def tensor_cases(rng, tier):
         out.append(case(C, "__setitem__", "subtensor-array", X,
                         [tup([sl(0, d) for d in shape]), arr(shape, gen.dense_data(rng, shape))], {}, si("sub"), "inplace"))
         out.append(case(C, "__setitem__", "subtensor-grow", X, [tup([py(d) for d in shape]), py(1.0)], {}, si("grow"), "inplace"))
-    # cubic receivers: contract, symmetrize, issymmetric, ttsv
-    for shape in ([2, 2, 2], [3, 3]):
-        X = Tspec(rng, shape)
+        for c in out[first:]:
+            c["label"] = variant + c["label"]
+    # the tensor without modes and entries
+    E0 = {"t": "tensor", "shape": [], "data": []}
+    for m in ("copy", "__pos__", "full", "double", "__neg__", "norm", "squeeze", "to_sptensor", "find", "__repr__"):
+        out.append(case(C, m, "no-modes", E0))
+    out.append(case(C, "__deepcopy__", "no-modes", E0, [py({})]))
+    out.append(case(C, "permute", "no-modes", E0, [iarr([])]))
+    out.append(case(C, "reshape", "no-modes", E0, [py(())]))
+    out.append(case(C, "__add__", "no-modes", E0, [E0]))
+    out.append(case(C, "isequal", "no-modes", E0, [E0]))
+    # receivers with modes of equal extent: contract, symmetrize, issymmetric, ttsv.  symmetrize over generic,
+    # ALREADY SYMMETRIC (nothing to average: the result carries the receiver's entries), partly symmetric and
+    # all-zero data x every way of naming the groups (default, 1-d, 2-d, several groups, single-mode groups,
+    # which are trivially symmetric) x both versions; the branch taken is decided by a NumPy reference
+    SYM = [([2, 2, 2], [[0, 1, 2]]), ([3, 3], [[0, 1]]), ([2, 2, 3], [[0, 1]]), ([2, 3, 2], [[0, 2]]),
+           ([2, 2, 3, 3], [[0, 1], [2, 3]]), ([4], [[0]]), ([2, 1, 2], [[0, 2]])]
+    if tier == "thorough":
+        SYM += [([3, 3, 3], [[0, 1, 2]]), ([2, 2, 2, 2], [[0, 1, 2, 3]]), ([2, 2, 2, 2], [[0, 3], [1, 2]]), ([3, 2, 3], [[2, 0]])]
+    for shape, full in SYM:
         N = len(shape)
-        out.append(case(C, "contract", "", X, [py(0), py(1)]))
-        out.append(case(C, "symmetrize", "all", X))
-        out.append(case(C, "symmetrize", "grps", X, [arr([1, 2], [0, 1], "i")]))
-        out.append(case(C, "symmetrize", "v1", X, [], {"version": py(1)}))
-        out.append(case(C, "issymmetric", "new", X))
-        out.append(case(C, "issymmetric", "grps", X, [arr([1, 2], [0, 1], "i")]))
-        out.append(case(C, "issymmetric", "details", X, [], {"version": py(1), "return_details": py(True)}))
-        out.append(case(C, "ttsv", "scalar", X, [vec(rng, shape[0])]))
-        out.append(case(C, "ttsv", "skip0", X, [vec(rng, shape[0])], {"skip_dim": py(0)}))
-        if N == 3:
-            out.append(case(C, "ttsv", "skip1", X, [vec(rng, shape[0])], {"skip_dim": py(1)}))
-            out.append(case(C, "ttsv", "v1", X, [vec(rng, shape[0])], {"skip_dim": py(0), "version": py(1)}))
+        whole = full == [list(range(N))]
+        datas = [("generic", gen.dense_data(rng, shape)), ("symmetric", sym_data(rng, shape, full)),
+                 ("zero", [0] * gen.numel(shape))]
+        if len(full) > 1:
+            datas.append(("partly", sym_data(rng, shape, full[:1])))
+        elif len(full[0]) > 2:
+            datas.append(("partly", sym_data(rng, shape, [full[0][:2]])))
+        for dl, data in datas:
+            X = {"t": "tensor", "shape": shape, "data": data}
+            forms = [("grps2d", [rows(full)], full), ("single-mode-groups", [rows([[k] for k in range(N)])], [[k] for k in range(N)])]
+            if whole:
+                forms.append(("default", [], full))
+            if len(full) == 1:
+                forms.append(("grps1d", [iarr(full[0])], full))
+                if len(full[0]) > 2:
+                    forms.append(("subgroup", [iarr(full[0][:2])], [full[0][:2]]))
+            for fl, a, grps in forms:
+                same = is_sym(shape, data, grps)
+                lab = f"{dl}/{fl}/{'already-symmetric' if same else 'averaged'}"
+                out.append(case(C, "symmetrize", lab, X, a, {}, M(C, "symmetrize", shape=shape, flag="same" if same else "")))
+                out.append(case(C, "symmetrize", lab + "/v1", X, a, {"version": py(1)}, M(C, "symmetrize", shape=shape, flag="v1")))
+                out.append(case(C, "issymmetric", lab, X, a, {}, RO))
+                out.append(case(C, "issymmetric", lab + "/details", X, a, {"version": py(1), "return_details": py(True)}))
+        if not whole:
+            continue
+        X = Tspec(rng, shape)
+        sz = shape[0]
+        if N >= 2:
+            out.append(case(C, "contract", "", X, [py(0), py(1)]))
+        # ttsv: every skip_dim; the last one multiplies NOTHING (the result carries the receiver's entries)
+        def ttsv_model(dnew, none):
+            return M(C, "ttsv", shape=[sz] * dnew, k=dnew, flag="none" if none else "")
+        for Xv, vl in ((X, ""), (Tzero(shape), "zero/")):
+            out.append(case(C, "ttsv", vl + "scalar", Xv, [vec(rng, sz)], {}, ttsv_model(0, False)))
+            for sk in range(N):
+                out.append(case(C, "ttsv", vl + (f"skip{sk}" if sk < N - 1 else "skip-last/nothing-multiplied"), Xv, [vec(rng, sz)],
+                                {"skip_dim": py(sk)}, ttsv_model(sk + 1, sk == N - 1)))
+                out.append(case(C, "ttsv", vl + (f"skip{sk}/v1" if sk < N - 1 else "skip-last/nothing-multiplied/v1"), Xv,
+                                [vec(rng, sz)], {"skip_dim": py(sk), "version": py(1)}))
     return out
 
 
@@ -775,9 +991,10 @@ def sptensor_cases(rng, tier):
                          arr([2 * nz, 1], s["vals"] * 2, "f"), py(shape)], {"function_handle": py("max")}, COMP, "static"))
     out.append(case(C, "from_function", "", None, [fn("ones"), py([3, 4]), py(5)], {}, COMP, "static"))
     shapes = SPARSE_SHAPES if tier == "quick" else SPARSE_SHAPES + [gen.shape(rng, 1, 4, 3) for _ in range(16)]
-    for shape in shapes:
+    for si, shape in enumerate(shapes):
         N = len(shape)
-        for klass in ("some", "empty"):
+        # receivers with several stored entries, with NONE (a tensor without nonzeros) and with a single one
+        for klass in (("some", "empty", "one") if (si < 2 or tier == "thorough") else ("some", "empty")):
             X = Sspec(rng, shape, klass)
             lab = klass
             for m in ("copy", "__pos__"):
@@ -787,13 +1004,13 @@ def sptensor_cases(rng, tier):
             for m in ("double", "norm", "allsubs", "__repr__", "__str__", "logical_not", "squash"):
                 out.append(case(C, m, lab, X))
             for m in ("full", "to_tensor"):
-                out.append(case(C, m, lab, X, [], {}, M(C, "full") if klass == "some" else COMP))
+                out.append(case(C, m, lab, X, [], {}, M(C, "full") if klass != "empty" else COMP))
             CS = M(C, "copysubs_newvals")
             for m in ("ones", "__neg__"):
                 out.append(case(C, m, lab, X, [], {}, CS))
             for m in ("ndims", "nnz", "order"):
                 out.append(case(C, m, lab, X, kind="prop"))
-            NSm = NS if klass == "some" else COMP
+            NSm = NS if klass != "empty" else COMP
             for p in (perms_for(rng, shape, tier)[:3] if tier == "quick" else perms_for(rng, shape, tier)):
                 out.append(case(C, "permute", f"{lab}/{'id' if p == sorted(p) else 'perm'}", X, [iarr(p)], {}, NSm))
             for t in (reshape_targets(shape)[:3] if tier == "quick" else reshape_targets(shape)):
@@ -820,22 +1037,61 @@ def sptensor_cases(rng, tier):
             out.append(case(C, "__getitem__", f"{lab}/subtensor", X, [tup([sl(None, None)] * N)]))
             out.append(case(C, "__getitem__", f"{lab}/subtensor-mixed", X, [tup([py(0)] + [sl(None, None)] * (N - 1))]))
             out.append(case(C, "__getitem__", f"{lab}/scalar", X, [tup([py(0)] * N)]))
+            # scale: a receiver without nonzeros has nothing to scale (the result is a copy); every factor kind
+            SC = M(C, "copysubs_newvals") if klass != "empty" else M(C, "copy")
+            out.append(case(C, "scale", f"{lab}/array", X, [vec(rng, shape[0]), py(0)], {}, SC))
+            out.append(case(C, "scale", f"{lab}/array-last", X, [vec(rng, shape[N - 1]), iarr([N - 1])], {}, SC))
+            out.append(case(C, "scale", f"{lab}/tensor", X, [Tspec(rng, [shape[0]]), iarr([0])], {}, SC))
+            out.append(case(C, "scale", f"{lab}/sptensor", X, [Sspec(rng, [shape[0]], "all"), iarr([0])], {}, SC))
+            out.append(case(C, "scale", f"{lab}/ones", X, [farr([1] * shape[0]), py(0)], {}, SC))
+            if N >= 2:
+                out.append(case(C, "scale", f"{lab}/tensor-two-modes", X, [Tpos(rng, shape[:2]), iarr([0, 1])], {}, SC))
+            # products: one mode, all modes, NO mode (nothing is multiplied)
+            out.append(case(C, "ttv", f"{lab}/one", X, [vec(rng, shape[0]), py(0)]))
+            out.append(case(C, "ttv", f"{lab}/all", X, [lst([vec(rng, d) for d in shape])]))
+            for sl_, a, kw in empty_selections(N, [vec(rng, d) for d in shape]):
+                out.append(case(C, "ttv", f"{lab}/{sl_}", X, a, kw))
+            out.append(case(C, "ttm", f"{lab}/none/dims-empty/0", X, [lst([])], {"dims": iarr([])}))
+            out.append(case(C, "collapse", f"{lab}/none", X, [iarr([])]))
+            out.append(case(C, "mask", f"{lab}/self", X, [X]))
+            out.append(case(C, "mask", f"{lab}/empty", X, [Sspec(rng, shape, "empty")]))
+            for m, e in (("__mul__", 1.0), ("__truediv__", 1.0), ("__rmul__", 1.0)):
+                out.append(case(C, m, f"{lab}/scalar-identity", X, [py(e)], {}, CS))
+            for m, e in (("__add__", 0.0), ("__sub__", 0.0), ("__mul__", 0.0)):
+                out.append(case(C, m, f"{lab}/scalar-zero", X, [py(e)]))
+            if N >= 2:
+                out.append(case(C, "ttm", f"{lab}/mode0", X, [mat(rng, 2, shape[0]), py(0)]))
+                out.append(case(C, "ttm", f"{lab}/list-one", X, [lst([mat(rng, 2, shape[N - 1])]), iarr([N - 1])]))
+                out.append(case(C, "mttkrp", f"{lab}/list/0", X, [lst([mat(rng, d, 2) for d in shape]), py(0)]))
+                out.append(case(C, "collapse", f"{lab}/dims", X, [iarr([0])]))
+                out.append(case(C, "nvecs", lab, X, [py(0), py(1)]))
+                out.append(case(C, "innerprod", f"{lab}/ktensor", X, [Kspec(rng, shape)]))
+                out.append(case(C, "__mul__", f"{lab}/ktensor", X, [Kspec(rng, shape)], {},
+                                M(C, "copysubs_newvals") if klass != "empty" else M(C, "copy")))
         X = Sspec(rng, shape)
         Y = Sspec(rng, shape)
         D = Tspec(rng, shape)
-        for m in ("__mul__", "__truediv__", "__eq__", "__ne__", "__ge__", "__gt__", "__le__", "__lt__", "logical_and",
-                  "logical_or", "logical_xor", "__add__", "__sub__", "isequal", "innerprod"):
+        BIN = ("__mul__", "__truediv__", "__eq__", "__ne__", "__ge__", "__gt__", "__le__", "__lt__", "logical_and",
+               "logical_or", "logical_xor", "__add__", "__sub__", "isequal", "innerprod")
+        for m in BIN:
             out.append(case(C, m, "sptensor", X, [Y]))
             out.append(case(C, m, "tensor", X, [D]))
+        # either operand (or both) WITHOUT nonzeros: several operations then hand on a copy of the other one
+        E1, E2, Z = Sspec(rng, shape, "empty"), Sspec(rng, shape, "empty"), Tzero(shape)
+        for m in BIN:
+            out.append(case(C, m, "sptensor/other-empty", X, [E2]))
+            out.append(case(C, m, "sptensor/self-empty", E1, [Y]))
+            out.append(case(C, m, "sptensor/both-empty", E1, [E2]))
+            out.append(case(C, m, "tensor/self-empty", E1, [D]))
+            out.append(case(C, m, "tensor/other-zero", X, [Z]))
+            out.append(case(C, m, "tensor/both-zero", E1, [Z]))
+        out.append(case(C, "__add__", "same-pattern", X, [dict(X, vals=[1] * len(X["vals"]))]))
+        out.append(case(C, "__sub__", "self-copy", X, [X]))
+        out.append(case(C, "__add__", "sumtensor/self-empty", E1, [{"t": "sumtensor", "parts": [Tspec(rng, shape)]}]))
         out.append(case(C, "__mul__", "ktensor", X, [Kspec(rng, shape)], {}, M(C, "copysubs_newvals")))
         out.append(case(C, "__truediv__", "ktensor", X, [Kspec(rng, shape, pos=True)], {}, M(C, "copysubs_newvals")))
         out.append(case(C, "__add__", "sumtensor", X, [{"t": "sumtensor", "parts": [Tspec(rng, shape)]}]))
         out.append(case(C, "mask", "", X, [Y]))
-        out.append(case(C, "scale", "array", X, [vec(rng, shape[0]), py(0)], {}, M(C, "copysubs_newvals")))
-        out.append(case(C, "scale", "tensor", X, [Tspec(rng, [shape[0]]), iarr([0])], {}, M(C, "copysubs_newvals")))
-        out.append(case(C, "scale", "sptensor", X, [Sspec(rng, [shape[0]], "all"), iarr([0])], {}, M(C, "copysubs_newvals")))
-        out.append(case(C, "ttv", "one", X, [vec(rng, shape[0]), py(0)]))
-        out.append(case(C, "ttv", "all", X, [lst([vec(rng, d) for d in shape])]))
         if N >= 2:
             out.append(case(C, "innerprod", "ktensor", X, [Kspec(rng, shape)]))
             out.append(case(C, "collapse", "dims", X, [iarr([0])]))
@@ -1675,6 +1931,27 @@ def judge(c, obs, mod):
     if extra:
         pairs = [f"{r or 'result'}~{names[i]}" for r, i in extra]
         return Verdict("violation", f"{what}: result shares memory with operand(s): {pairs}", obs, mod, None, tags)
+    # object level: identity and write-through with the objects' own __setitem__
+    okp = exp_share | (seen if spec == "knownAlias" else set())
+    rsize = dict(zip(obs["results"], obs.get("rsize", [])))
+    for rp, op in obs.get("same", []):
+        inside = [rn for rn in obs["results"] if under(rn, rp) and rsize.get(rn, 1) > 0]
+        explained = spec in ("noCopy", "knownAlias") and all(
+            any((rn, i) in okp and under(names[i], op) for i in range(len(names))) for rn in inside)
+        if not explained:
+            return Verdict("violation", f"{what}: the returned object {rp or 'result'} IS the operand object {op} "
+                                        f"(not a copy): a later in-place change of either is one of the other",
+                           obs, mod, None, tags + ["same-object"])
+    for d, a, b in obs.get("visible_obj", []):
+        if d == "r":  # wrote through result object a, operand array b changed
+            i = names.index(b) if b in names else -1
+            explained = any((rn, i) in okp for rn in obs["results"] if under(rn, a))
+            msg = f"an in-place write to the returned object {a or 'result'} changes the operand {b}"
+        else:         # wrote through operand object b, result array a changed
+            explained = any((a, i) in okp for i in range(len(names)) if under(names[i], b))
+            msg = f"an in-place write to the operand object {b} changes the returned {a or 'result'}"
+        if not explained:
+            return Verdict("violation", f"{what}: {msg}", obs, mod, None, tags + ["object-write-through"])
     if spec == "knownAlias" and seen:
         pairs = [f"{r or 'result'}~{names[i]}" for r, i in sorted(seen)]
         return Verdict("violation", f"known-alias {what}: result shares memory with operand(s): {pairs}", obs, mod, None,
